@@ -16,7 +16,7 @@ import (
 // VerifC03_a1_put: the result returned by the service reaches the client
 // caller equal, with the designed status, headers and defaults.
 func VerifC03_a1_put() {
-	res := &svc.PutResult{Rid: nondetStringUpTo("rid", 2), Rc: nondetInt("rc")}
+	res := &svc.PutResult{Rid: nondetStringUpTo("rid", deep(2)), Rc: nondetInt("rc")}
 	if nondetBool("rh-set") {
 		v := nondetString("rh", 2)
 		verifAssume(visible(v))
@@ -29,7 +29,7 @@ func VerifC03_a1_put() {
 	if nondetBool("item-set") {
 		res.Item = &svc.Item{N: nondetInt("item-n")}
 		if nondetBool("item-s-set") {
-			v := nondetStringUpTo("item-s", 1)
+			v := nondetStringUpTo("item-s", deep(1))
 			res.Item.S = &v
 		}
 	}
